@@ -38,7 +38,7 @@ BC(ap, v, lead, eol, blank) == [k |-> "b", ap |-> ap, val |-> v, lead |-> lead, 
 Inh(names) == [k |-> "i", src |-> "", names |-> names, lead |-> <<>>, eol |-> "", blank |-> FALSE]
 
 D(wrap, layers, body) == [shape |-> "ok", wrap |-> wrap, layers |-> layers, body |-> body,
-                          lead |-> <<>>, trail |-> <<>>, nl |-> 1]
+                          lead |-> <<>>, trail |-> <<>>, nl |-> 1, allc |-> <<>>]
 
 Bodies == {
   SetV(FALSE, <<>>),                                                     \* { }
